@@ -1,6 +1,7 @@
 package rules
 
 import (
+	"strings"
 	"fmt"
 	"go/token"
 	"go/types"
@@ -84,6 +85,8 @@ func runC12(c *core.Ctx) {
 		}
 	}
 	wrappedNotLocked(c)
+	c.Share(map[string]string{"R13.4": "R12.5", "R13.12": "R12.7"}, runC13) // a pool goroutine blocked for ever leaves the requests routed to it - and their key locks - hanging
+	c.Share(map[string]string{"R15.2": "R12.6"}, runC15)                    // the loop's recover closes the connection only if abort closes every closer
 
 	// R12.3 / R12.4
 	for _, rel := range []string{"server", "orcas", "handlers"} {
@@ -157,9 +160,18 @@ func checkLockSite(c *core.Ctx, s lockSite, key string) {
 	}
 	if formA {
 		c.OK("R12.1", key, pos, "defer Unlock on the same locker follows the Lock before any other call")
-		// R12.2: no further Lock in this function
-		n := len(lockSites(fn))
-		c.Check(n == 1, "R12.2", key, pos, "single Lock in the method, released by defer", fmt.Sprintf("%d Lock calls in a method whose lock is held until return", n))
+		// R12.2: the lock is held until the function returns, so no Lock may be reachable from here
+		nxt, trail := (ssax.Reach{Target: func(i ssa.Instruction) bool {
+			if _, isCall := i.(*ssa.Call); !isCall {
+				return false
+			}
+			return isLockerCall(ssax.CallOf(i), "Lock")
+		}}).From(s.ins)
+		why := ""
+		if nxt != nil {
+			why = fmt.Sprintf("the lock taken here is held until return (deferred Unlock), yet another Lock is reachable at %s (%s)", c.P.Pos(nxt.Pos()), strings.Join(ssax.BlockTrail(c.P.Fset, trail), " -> "))
+		}
+		c.Check(nxt == nil, "R12.2", key, pos, "no other Lock is reachable while this one is held until return", why)
 		return
 	}
 	// Form B: explicit unlock + deferred recover/unlock
@@ -197,7 +209,22 @@ func checkLockSite(c *core.Ctx, s lockSite, key string) {
 	// (ii) deferred closure that recovers and unlocks the same cell
 	deferOK := false
 	why := "no deferred closure recovers and unlocks the lock cell"
-	for _, ins := range fn.Blocks[0].Instrs {
+	// the recovering closure must be deferred before the Lock on every path: in a block that dominates the Lock
+	var domDefers []ssa.Instruction
+	for _, db := range fn.Blocks {
+		if db != s.ins.Block() && !db.Dominates(s.ins.Block()) {
+			continue
+		}
+		for _, ins := range db.Instrs {
+			if ins == s.ins {
+				break
+			}
+			if _, ok := ins.(*ssa.Defer); ok {
+				domDefers = append(domDefers, ins)
+			}
+		}
+	}
+	for _, ins := range domDefers {
 		d, ok := ins.(*ssa.Defer)
 		if !ok {
 			continue
